@@ -29,6 +29,7 @@ import numpy as np
 from .. import tlc
 
 MODULE = "refsig/ZadoffChu.tla"
+JVM_ENV = {"JAVA_TOOL_OPTIONS": "-XX:ParallelGCThreads=1 -XX:CICompilerCount=2"}   # small runs: keep the JVM lean
 DEVS = ["PrimeTableEndsAt1009", "ZeroPadExtension", "NSquaredPhase", "ShiftDenominator8",
         "TapWindowOffByOne", "LsGramNotConjugated"]
 INVARIANTS = ["PrimeIsLargest", "ConstantAmplitude", "ZeroAutocorrelation", "FlatSpectrum", "CyclicExtension",
@@ -62,46 +63,46 @@ def chunks(xs, n):
 
 
 def plan(tier, seed):
-    """list of (label, kinds, params): each one TLC process (disjoint constant partitions)"""
+    """list of (label, kinds, params): each one TLC process (disjoint constant partitions; a process may
+    carry several families - the machine is a star, so families do not interact)"""
     rng = np.random.RandomState(1000 + seed)
-    jobs = []
     thorough = tier == "thorough"
+    fam = {}
     # prime selection: every size, always
-    for i, ch in enumerate(chunks(ALL_SIZES, 2)):
-        jobs.append((f"prime/{i}", ["prime"], dict(PrimeSizes=ch)))
-    # CAZAC algebra
+    fam["prime"] = [dict(PrimeSizes=set(ALL_SIZES))]
+    # CAZAC algebra: every root and lag of every listed odd length
     if thorough:
-        zc = [{3, 5, 7, 9, 11, 13, 15, 17, 19, 21}, {23, 25, 27}, {29, 33}, {31, 35}, {37}, {41}, {43, 45}, {47}, {53}, {59}, {61}]
-        for i, ns in enumerate(zc):
-            jobs.append((f"zc/{i}", ["zc"], dict(ZcNs=ns, SpecMax=37)))
+        zc = [{3, 5, 7, 9, 11, 13, 15, 17, 19, 21, 23}, {25, 27, 29}, {31, 33}, {35, 37}, {41}, {43, 45}, {47}, {53}, {59}, {61}]
+        fam["zc"] = [dict(ZcNs=ns, SpecMax=37) for ns in zc]
     else:
-        for i, ns in enumerate([{3, 5, 7, 9, 11, 13, 15, 17, 19, 21}, {23, 25, 27}, {29}, {31}]):
-            jobs.append((f"zc/{i}", ["zc"], dict(ZcNs=ns, SpecMax=23)))
-    jobs.append(("ext", ["ext"], dict(ExtNs={3, 5, 7, 11, 13, 17} if thorough else {3, 5, 7, 11, 13})))
+        fam["zc"] = [dict(ZcNs=ns, SpecMax=23) for ns in ({3, 5, 7, 9, 11, 13, 15, 17, 19, 21, 23}, {25, 27, 29}, {31})]
+    fam["ext"] = [dict(ExtNs={3, 5, 7, 11, 13, 17} if thorough else {3, 5, 7, 11, 13})]
     # RootSequence: probes at every size; complete sequences for a seeded subset, the sizes around the end
     # of the stored table and the largest sizes
     nfull = 400 if thorough else 40
     full = set(int(x) for x in rng.choice(np.arange(25, MAX_SIZE + 1), nfull, replace=False))
     full |= {25, 26, 29, 30, 36, 48, 139, 150, 1008, 1009, 1010, 1012, 1013, 1014, 1019, 1193, 1199, 1200}
-    sizes = list(range(25, MAX_SIZE + 1))
-    for i, ch in enumerate(chunks(sizes, 6 if thorough else 3)):
-        jobs.append((f"root/{i}", ["root"], dict(RootSizes=ch, RootFull=ch & full)))
+    fam["root"] = [dict(RootSizes=ch, RootFull=ch & full) for ch in chunks(range(25, MAX_SIZE + 1), 6 if thorough else 3)]
     ue_sizes = [36, 48, 60, 72, 96, 120, 139, 144, 150, 288, 300, 600, 1000] if thorough else [36, 48, 139, 150, 300]
-    for i, ch in enumerate(chunks(ue_sizes, 4 if thorough else 2)):
-        jobs.append((f"ue/{i}", ["ue"], dict(UeSizes=ch)))
+    fam["ue"] = [dict(UeSizes=ch) for ch in chunks(ue_sizes, 4 if thorough else 3)]
     if thorough:
         ls = [12, 24] + list(range(25, 121)) + [int(x) for x in rng.choice(np.arange(121, 1001), 12, replace=False)]
     else:
         ls = [12, 24] + list(range(25, 50)) + [int(x) for x in rng.choice(np.arange(50, 400), 4, replace=False)]
-    for i, ch in enumerate(chunks(ls, 6 if thorough else 3)):
-        jobs.append((f"shift/{i}", ["shift"], dict(ShiftLs=ch)))
-    nls = 400 if thorough else 80
-    jobs.append(("ls", ["ls"], dict(NLs=nls)))
+    fam["shift"] = [dict(ShiftLs=ch) for ch in chunks(ls, 6 if thorough else 3)]
+    fam["ls"] = [dict(NLs=400 if thorough else 80)]
     est_ls = [12, 24, 32, 36, 40, 48, 60, 64, 72, 96, 120, 144, 288] if thorough else [12, 24, 32, 36, 48, 72, 96]
     nv = 8 if thorough else 2
-    for fam in ("srs", "dmrs", "occ"):
-        for i, ch in enumerate(chunks(range(1, nv + 1), 4 if thorough else 1)):
-            jobs.append((f"est/{fam}/{i}", ["est"], dict(EstFams={fam}, EstLs=set(est_ls), EstNrx={1, 2, 3, 4}, EstVars=ch)))
+    fam["est"] = [dict(EstFams={f}, EstLs=set(est_ls), EstNrx={1, 2, 3, 4}, EstVars=ch)
+                  for f in ("srs", "dmrs", "occ") for ch in chunks(range(1, nv + 1), 2 if thorough else 1)]
+    if thorough:
+        return [(f"{k}/{i}", [k], p) for k, ps in fam.items() for i, p in enumerate(ps)]
+    # quick: fewer JVMs (start-up and JIT dominate the cost of small runs)
+    jobs = [("prime+ext+ls", ["prime", "ext", "ls"], {**fam["prime"][0], **fam["ext"][0], **fam["ls"][0]})]
+    jobs += [(f"zc/{i}", ["zc"], p) for i, p in enumerate(fam["zc"])]
+    jobs += [(f"root+ue/{i}", ["root", "ue"], {**p, **q}) for i, (p, q) in enumerate(zip(fam["root"], fam["ue"]))]
+    jobs += [(f"shift/{i}", ["shift"], p) for i, p in enumerate(fam["shift"])]
+    jobs += [(f"est/{i}", ["est"], p) for i, p in enumerate(fam["est"])]
     return jobs
 
 
@@ -119,7 +120,7 @@ DEV_RUNS = {
 def run_dev(dev, seed):
     kinds, params, want = DEV_RUNS[dev]
     cfg, defs = model(kinds, dev=[dev], seed=seed, emit=False, **params)
-    r = tlc.run(MODULE, cfg, defs=defs)
+    r = tlc.run(MODULE, cfg, defs=defs, env=JVM_ENV, heap="1g")
     want = want if isinstance(want, set) else {want}
     if r.violated not in want:
         raise tlc.TlcError(f"deviation {dev} is not refuted by the invariants of ZadoffChu.tla "
@@ -132,6 +133,13 @@ def unit(e, n):
     """phase exponents e (mod 2n) -> exp(-j pi e / n); -1 is the reserved 'amplitude zero'"""
     e = np.asarray(e, dtype=float)
     return np.where(e < 0, 0.0, np.exp(-1j * np.pi * e / n))
+
+
+def phase_tol(u, length, n):
+    """float64 cannot hold the phase pi u k (k+1) / n of the last elements of a long sequence more
+    accurately than |phase| * 2^-52 (up to 4.5e6 rad at size 1200): allow 8 ulp of the largest phase.
+    One exponent step is pi / n >= 2.6e-3, five orders of magnitude above this allowance."""
+    return max(TOL, 8 * 2.220446049250313e-16 * np.pi * u * length * (length + 1) / n)
 
 
 def gmat(m):
@@ -177,6 +185,13 @@ def do_prime(c):
             return "viol", f"size {size}: table helper gives {g2} but RootSequence.Nzc is {got}"
     if got is None:
         return "skip", ""
+    if size <= 24:
+        # one and two resource blocks: 36.211 stores 30 QPSK rows instead of a Zadoff-Chu sequence (outside the
+        # model); all the estimators need of them: the requested length, unit modulus, phases odd multiples of pi/4
+        for row in range(30):
+            x = RootSequence(root_index=row, size=size).seq_array()
+            if x.shape != (size,) or maxdiff(x ** 4, -np.ones(size)) > TOL:
+                return "viol", f"RootSequence(root_index={row}, size={size}) is not a length-{size} QPSK row of unit modulus"
     if got == want:
         return "ok", ""
     what = f"RootSequence for size {size} uses Nzc={got}, the largest prime <= {size} is {want}"
@@ -189,7 +204,7 @@ def do_zc(c):
     from pyphysim.reference_signals.zadoffchu import calcBaseZC
     got = calcBaseZC(c["n"], c["u"])
     d = maxdiff(got, unit(c["e"], c["n"]))
-    return ("ok", "") if d <= TOL else ("viol", f"calcBaseZC({c['n']}, {c['u']}) differs from exp(-j pi u n(n+1)/N) by {d:.3g}")
+    return ("ok", "") if d <= phase_tol(c["u"], c["n"], c["n"]) else ("viol", f"calcBaseZC({c['n']}, {c['u']}) differs from exp(-j pi u n(n+1)/N) by {d:.3g}")
 
 
 def do_ext(c):
@@ -201,7 +216,7 @@ def do_ext(c):
     got_b = get_extended_ZF(calcBaseZC(n, u), size)
     for tag, got in (("exact base", got_a), ("calcBaseZC", got_b)):
         d = maxdiff(got, want)
-        if d > TOL:
+        if d > phase_tol(u, size, n):
             return "viol", f"get_extended_ZF(N={n}, size={size}) [{tag}] is not the cyclic repetition i -> i mod N (diff {d:.3g}, length {np.asarray(got).shape})"
     return "ok", ""
 
@@ -219,7 +234,7 @@ def do_root(c):
         return "viol", f"RootSequence.index = {r.index}, constructed with {u}"
     idx = np.asarray(c["idx"], dtype=int)
     d = maxdiff(r.seq_array()[idx], unit(c["e"], nzc))
-    if d > TOL:
+    if d > phase_tol(u, size, nzc):
         return "viol", f"RootSequence(u={u}, size={size}) differs from the cyclically extended Zadoff-Chu sequence by {d:.3g}"
     return "ok", ""
 
@@ -247,7 +262,7 @@ def do_ue(c):
     want = want / np.sqrt(c["norm2"])
     got = seq.seq_array()
     d = maxdiff(got, want)
-    if d > TOL:
+    if d > phase_tol(u, size, nzc):
         return "viol", (f"{c['fam']} user sequence (size {size}, u {u}, n_cs {c['ncs']}, cover {c['cover']}, normalize "
                         f"{c['normalize']}) differs from root * exp(j 2 pi n_cs k / {c['den']}) by {d:.3g}")
     if seq.size != size or seq.normalized != c["normalize"]:
@@ -410,9 +425,11 @@ def run(ctx):
     def tlc_job(job):
         label, kinds, params = job
         cfg, defs = model(kinds, seed=ctx.seed, **params)
-        return tlc.run(MODULE, cfg, defs=defs, coverage=True)
+        return tlc.run(MODULE, cfg, defs=defs, coverage=True, env=JVM_ENV, heap="1500m")
 
-    with ThreadPoolExecutor(min(16, os.cpu_count() or 4)) as ex:
+    # concurrent TLC processes: VERIF_PROCS when set (shared machine), else one per core up to 16
+    nthreads = int(os.environ.get("VERIF_PROCS", "0") or 0) or min(16, os.cpu_count() or 4)
+    with ThreadPoolExecutor(nthreads) as ex:
         dev_f = [ex.submit(run_dev, d, ctx.seed) for d in DEVS]
         runs = list(ex.map(tlc_job, jobs))
         devs = [f.result() for f in dev_f]
@@ -452,12 +469,14 @@ def run(ctx):
         else:
             per_kind[kind][1] += 1
             ctx.finding(verdict, what, c)
-    ctx.trace_done(len(uniq))
+    ctx.trace_done(len(uniq))          # behaviours of the star machine replayed (stage R)
     ctx.notes["cases_per_family"] = {k: v[0] for k, v in per_kind.items()}
     ctx.notes["mismatches_per_family"] = {k: v[1] for k, v in per_kind.items() if v[1]}
     # the prime-selection and (N <= bound, all roots, all lags) families are complete enumerations;
     # sequences at large sizes, least squares and the estimator scenarios are seeded samples
     ctx.exhaustive = False
+    from . import c18_trace
+    c18_trace.run(ctx)
     ctx.notes["exhaustive_parts"] = ["prime selection for every size 12, 24, 25..1200",
                                      "Zadoff-Chu algebra: every root and lag for every odd N in the configured set",
                                      "cyclic shifts: every pair (a, b) for every configured length"]
@@ -465,6 +484,9 @@ def run(ctx):
 
 def replay(ctx, data):
     c = data["case"]
+    if c.get("kind") == "trace":
+        from . import c18_trace
+        return c18_trace.replay(ctx, c)
     verdict, what = execute(c)
     if verdict == "ok":
         ctx.ok(case_key(c))
